@@ -294,23 +294,23 @@ class C19(Check):
         for roles in (["plain", "plain"], ["hog", "plain"], ["plain", "hog"]):
             for sh in range(4):
                 yield {"part": "local", "roles": roles, "k": k, "shard": sh, "nshards": 4,
-                       "reacquire": roles == ["plain", "plain"], "max_runs": 500 if q else 20000}
+                       "reacquire": roles == ["plain", "plain"], "max_runs": 500 if q else 6000}
         for roles in (["plain", "plain", "plain"], ["hog", "plain", "plain"]):
             nsh = 8 if q else 32
             for sh in range(nsh):
                 yield {"part": "local", "roles": roles, "k": 1 if q else 2, "shard": sh, "nshards": nsh,
-                       "reacquire": False, "max_runs": 300 if q else 20000}
+                       "reacquire": False, "max_runs": 300 if q else 1500}
         for i in range(2 if q else 6):
             yield {"part": "procs", "nproc": 8, "rounds": 150 if q else 400, "seed": seed * 100 + i}
         for cfg in ({"n": 2, "clock_steps": 1, "hb_steps": 0}, {"n": 2, "clock_steps": 1, "hb_steps": 1},
                     {"n": 2, "clock_steps": 2, "hb_steps": 0}, {"n": 2, "clock_steps": 0, "hb_steps": 0, "timeout": 2.0}):
             nsh = 8
             for sh in range(nsh):
-                yield dict(cfg, part="s3", k=k, shard=sh, nshards=nsh, max_runs=250 if q else 20000)
+                yield dict(cfg, part="s3", k=k, shard=sh, nshards=nsh, max_runs=250 if q else 5000)
         for cfg in ({"n": 3, "clock_steps": 1, "hb_steps": 0},):
             nsh = 16
             for sh in range(nsh):
-                yield dict(cfg, part="s3", k=2, shard=sh, nshards=nsh, max_runs=250 if q else 20000)
+                yield dict(cfg, part="s3", k=2, shard=sh, nshards=nsh, max_runs=250 if q else 3000)
         nrand = 32 if q else 400
         for i in range(nrand):
             rng = rng_for(seed, "c19r", i)
